@@ -352,7 +352,7 @@ func cmdCheck(args []string) {
 				}
 				continue
 			}
-			if !names[n] {
+			if !names[n] && !strings.Contains(n, "#auto-inv-") {
 				missing = append(missing, n)
 			}
 		}
@@ -369,6 +369,9 @@ func cmdCheck(args []string) {
 	if *writeExpected {
 		var ns []string
 		for _, o := range res.Obls {
+			if strings.Contains(o.Name, "#auto-inv-") {
+				continue // which auto-proposed invariants survive depends on solver timing; the obligations that need them are guarded
+			}
 			if (o.Backend != "provenance" && !volatileName(o.Name)) || strings.Contains(o.Name, "#fresh@") {
 				ns = append(ns, o.Name)
 			}
